@@ -215,7 +215,7 @@ def make_limit_case(seed):
         elif style == 'just_below':
             over['1099-int:0.box_6'] = str(thr)
         elif style == 'int':
-            over['1099-int:0.box_6'] = str(thr + rng.pick([0.01, 1, 250]))
+            over['1099-int:0.box_6'] = str(thr + rng.pick([0.01, 1, 250, 900]))
         elif style == 'div':
             over['1099-int:0.box_6'] = '0'
             over['1040.number_1099-div'] = '1'
@@ -241,7 +241,7 @@ def make_limit_case(seed):
                 amt = 100 if k < 14 else 250
             over[f'1099-{which}:{k}.box_1' if which == 'int' else f'1099-div:{k}.box_1a'] = str(amt)
     elif kind == 'educator_expenses':
-        over['1040_s1.educator_expenses'] = str(rng.pick([500, 500.01, 501, 2000]))
+        over['1040_s1.educator_expenses'] = str(rng.pick([500, 500.01, 501, 2000, 1200]))
     else:
         who = 'you'
         h = lim['hsa_contribution']
@@ -251,6 +251,16 @@ def make_limit_case(seed):
         over[f'8889:{who}.employer_contribution'] = str(emp)
         room = max(0.0, h['limit']['family' if fam else 'self'] - emp)
         over[f'8889:{who}.hsa_contributions'] = str(round(room + rng.pick([-100, 0, 0.01, 1, 500, 20000]), 2))
+    if rng.chance(0.2):
+        # the same amounts as printed on statements: 1,200 or 3,900.00 (not a number for habutax today: rejected)
+        for q in list(over):
+            if q.endswith(('.box_6', '.box_7', '.hsa_contributions', '.educator_expenses')):
+                try:
+                    v = float(over[q])
+                except ValueError:
+                    continue
+                if v >= 1000:
+                    over[q] = f'{v:,.2f}' if v != int(v) else f'{int(v):,}'
     return {'persona': p, 'file': [], 'prompt': True, 'refuse_at': None, 'layout': None,
             'sched': [rng.randrange(1 << 32), rng.pick([0, 1, 3])], 'faults': [kind], 'limit': kind}
 
@@ -263,8 +273,12 @@ def limit_exceeded(case, run):
     attempted = {e[1] for e in run.rec.events if e[0] == 'A'}
 
     def num(q):
+        t = (texts.get(q, '0') or '0').strip()
+        import re
+        if re.fullmatch(r'\d{1,3}(,\d{3})+(\.\d+)?', t):
+            t = t.replace(',', '')          # an amount written with thousands separators is still that amount
         try:
-            return float(texts.get(q, '0') or 0)
+            return float(t)
         except ValueError:
             return 0.0
     out = []
